@@ -77,16 +77,33 @@ type c08Reg struct {
 	Style byte // t f u i
 	Store string
 	Types string // C U D = synchronous, c u d = asynchronous; in the order of the Add*Listener call
+	Pass  string // how the caller hands over the additional types (store_c08_regpass.go); "" = spelled out in the call
 }
 
-func (r c08Reg) String() string { return fmt.Sprintf("%c:%s:%s", r.Style, r.Store, r.Types) }
+// String is the token of the REGS section: <style>:<store>:<types>[:<pass>]
+func (r c08Reg) String() string {
+	if r.Pass != "" {
+		return fmt.Sprintf("%c:%s:%s:%s", r.Style, r.Store, r.Types, r.Pass)
+	}
+	return r.key()
+}
+
+// key names the registration in its delivery tokens (LM:<k>:<style>:<store>:<types>:..): what it is registered for
+func (r c08Reg) key() string { return fmt.Sprintf("%c:%s:%s", r.Style, r.Store, r.Types) }
 
 func c08ParseReg(tok string) (c08Reg, error) {
 	p := strings.Split(tok, ":")
-	if len(p) != 3 || len(p[0]) != 1 || !strings.Contains("tfui", p[0]) || p[2] == "" || strings.Trim(p[2], "CUDcud") != "" {
+	if (len(p) != 3 && len(p) != 4) || len(p[0]) != 1 || !strings.Contains("tfui", p[0]) || p[2] == "" || strings.Trim(p[2], "CUDcud") != "" {
 		return c08Reg{}, fmt.Errorf("bad listener registration %q", tok)
 	}
-	return c08Reg{Style: p[0][0], Store: p[1], Types: p[2]}, nil
+	reg := c08Reg{Style: p[0][0], Store: p[1], Types: p[2]}
+	if len(p) == 4 {
+		reg.Pass = p[3]
+		if err := c08CheckPass(reg); err != nil {
+			return c08Reg{}, err
+		}
+	}
+	return reg, nil
 }
 
 func c08EventType(ch byte) boltz.EntityEventType {
@@ -106,37 +123,46 @@ func c08EventType(ch byte) boltz.EntityEventType {
 	}
 }
 
-// registerMulti performs the Add*Listener calls of the REGS section
+// registerMulti performs the Add*Listener calls of the REGS section, in order; the additional change types of a
+// registration are handed over the way its Pass field says (store_c08_regpass.go: spelled out, a re-used buffer with
+// spare capacity, a slice the caller overwrites afterwards, ..).  What a registration is registered FOR is what the
+// call names at that moment - c.multiPer (the deliveries to wait for) and the oracle only look at Types.
 func (c *c08Db) registerMulti(regs []c08Reg) error {
 	c.multiPer = map[string]int{}
+	caller := &c08RegCaller{}
 	for k, reg := range regs {
 		gs := c.h.stores[reg.Store]
 		if gs == nil {
 			return fmt.Errorf("registration %s: no store %s", reg, reg.Store)
 		}
-		var types []boltz.EntityEventType
 		for i := 0; i < len(reg.Types); i++ {
-			types = append(types, c08EventType(reg.Types[i]))
 			c.multiPer[reg.Store+"/"+strings.ToUpper(reg.Types[i:i+1])]++
 		}
-		prefix := fmt.Sprintf("LM:%d:%s", k, reg)
+		first, rest, after, err := caller.args(reg)
+		if err != nil {
+			return err
+		}
+		prefix := fmt.Sprintf("LM:%d:%s", k, reg.key())
 		store := reg.Store
 		switch reg.Style {
 		case 't':
-			gs.AddEntityEventListener(&c08MultiTyped{c: c, prefix: prefix, store: store}, types[0], types[1:]...)
+			gs.AddEntityEventListener(&c08MultiTyped{c: c, prefix: prefix, store: store}, first, rest...)
 		case 'f':
 			gs.AddEntityEventListenerF(func(e *gEnt) {
 				c.recordMulti(fmt.Sprintf("%s:%s:%s", prefix, c08EntId(e), c.digest(store, e)))
-			}, types[0], types[1:]...)
+			}, first, rest...)
 		case 'u':
 			gs.AddListener(func(e boltz.Entity) {
 				g := c08AsGEnt(e)
 				c.recordMulti(fmt.Sprintf("%s:%s:%s", prefix, c08EntId(g), c.digest(store, g)))
-			}, types[0], types[1:]...)
+			}, first, rest...)
 		case 'i':
 			gs.AddEntityIdListener(func(id string) {
 				c.recordMulti(fmt.Sprintf("%s:%s:-", prefix, hxs(id)))
-			}, types[0], types[1:]...)
+			}, first, rest...)
+		}
+		if after != nil {
+			after() // the caller goes on using its own memory
 		}
 	}
 	c.regs = regs
